@@ -406,7 +406,8 @@ class UpConverter(LiteXModule):
 
         # # #
 
-        self.comb += master.connect(slave, omit={"adr", "sel", "dat_w", "dat_r"})
+        # Bursts are not converted (the slave would advance one wide word per beat): classic cycles are presented.
+        self.comb += master.connect(slave, omit={"adr", "sel", "dat_w", "dat_r", "cti", "bte"})
         cases = {}
         for i in range(ratio):
             cases[i] = [
